@@ -19,6 +19,9 @@ use crate::stats::Stats;
 
 pub const DEFAULT_SEED: u64 = 20260926;
 pub const TIME_BOUND_NS: u64 = 2_000_000_000;
+/// Bytes one call may request from the allocator (cumulative, not live). Set from measurement,
+/// see DESIGN.md 0.2.
+pub const ALLOC_BOUND_BYTES: u64 = 1 << 30;
 
 #[derive(Clone, Debug, Serialize, Deserialize)]
 pub struct KnownFinding {
@@ -69,9 +72,24 @@ pub fn run_seed(verif_seed: u64, scenario: Scenario, index: u64) -> u64 {
 pub fn exec_opts(scenario: Scenario, log: bool) -> ExecOpts {
     ExecOpts {
         time_bound_ns: if scenario == Scenario::Crashfree { TIME_BOUND_NS } else { 0 },
+        alloc_bound_bytes: if scenario == Scenario::Crashfree { ALLOC_BOUND_BYTES } else { 0 },
         log,
         mirror_base: None,
     }
+}
+
+/// Options for re-executing a run whose violation is a slow call. Time is the one oracle that
+/// is not a function of the seed, so it gets hysteresis: a call counts as slow in a batch above
+/// TIME_BOUND_NS (the worker re-executes the run twice at once and wants half the bound both
+/// times), the minimiser keeps a candidate only while its slow call stays above half the bound,
+/// and the final single-threaded confirmation and the replay ask for a quarter of it (an idle
+/// machine runs memory-bound code more than twice as fast as sixteen busy workers do). A genuine blow-up found at
+/// 2.1 s is then not lost because the same call takes 1.9 s next time, and a call that
+/// normally takes 0.1 s never qualifies.
+pub fn exec_opts_slow(scenario: Scenario, log: bool, num: u64, den: u64) -> ExecOpts {
+    let mut o = exec_opts(scenario, log);
+    o.time_bound_ns = o.time_bound_ns / den * num;
+    o
 }
 
 pub struct BatchCfg {
@@ -180,6 +198,22 @@ pub fn run_batch(env: &Arc<Env>, known: &Arc<KnownFindings>, cfg: &BatchCfg) -> 
                             } else if let Some(k) = known.matching(scenario.property(), &v) {
                                 out.known.push((i, k.what.clone(), v.detail.clone()));
                                 out.stats.bump("known_finding_hits");
+                            } else if v.clause == "time-bound" && !{
+                                // Time is not a function of the seed: a suspicion counts only
+                                // if the same run shows a slow call again, twice, right here
+                                // (same thread, same machine load), at half the bound. An
+                                // unconfirmed suspicion must not mask later runs.
+                                let mut again = 0;
+                                for _ in 0..2 {
+                                    let mut st = Stats::default();
+                                    let (o2, _) = execute(&env, &plan, &mut st, exec_opts_slow(scenario, false, 1, 2));
+                                    if matches!(&o2.end, End::Violation(v2) if v2.clause == "time-bound" || v2.clause == "cost-bound") {
+                                        again += 1;
+                                    }
+                                }
+                                again == 2
+                            } {
+                                out.stats.bump("time_bound_suspicion_not_confirmed");
                             } else {
                                 min_fail.fetch_min(i, Ordering::SeqCst);
                                 out.failures.push(Failure { index: i, plan, violation: v });
@@ -247,7 +281,8 @@ pub struct Minimised {
 fn fails_same(env: &Env, plan: &Plan, clause: &str, execs: &mut u64) -> Option<Violation> {
     *execs += 1;
     let mut st = Stats::default();
-    let (o, _) = execute(env, plan, &mut st, exec_opts(plan.scenario, false));
+    let opts = if clause == "time-bound" { exec_opts_slow(plan.scenario, false, 1, 2) } else { exec_opts(plan.scenario, false) };
+    let (o, _) = execute(env, plan, &mut st, opts);
     match o.end {
         End::Violation(v) if v.clause == clause => Some(v),
         _ => None,
@@ -606,6 +641,7 @@ pub fn write_evidence(
             "writes_served": st.get("disk.writes_served"),
         },
         "max_call_ms": st.max_call_ns as f64 / 1e6,
+        "max_call_allocated_bytes": st.max_call_alloc,
         "determinism_resampled": {"runs_re_executed_single_threaded": determinism_resampled.0, "digest_mismatches": determinism_resampled.1},
         "workers": cfg.workers,
         "real_vs_stub": {
